@@ -23,7 +23,7 @@ RULE = ('random (tree, selector, target) triples: trees of 1-40 elements (depth 
         'text-comment-CDATA-PI interleaving, with/without html/body wrapper, one or several top-level nodes, built '
         'through the bs4 API (HTML and XML flavoured) or parsed by html.parser/lxml/html5lib/lxml-xml; selectors of '
         'the C01 grammar (depth <= 3, <= 4 compounds, <= 3 alternatives); targets = document, inner element, '
-        'detached subtree; plus the exhaustive small scope.  A case is non-trivial when the expected set is neither '
+        'detached subtree; 5% of the selectors are forgiving lists with empty / dangling-combinator members, 15% of the trees carry mixed-case attribute keys (svg viewBox, data-Key); plus the exhaustive small scope.  A case is non-trivial when the expected set is neither '
         'empty nor all descendants of the target; distinct = distinct (selector shape, tree shape) signatures among '
         'non-trivial compared cases.')
 ASSUMPTIONS = [
@@ -249,6 +249,16 @@ def run_unit(u):
             else:
                 root, ws = trees.gen_tree(rng, max_nodes=rng.choice([6, 15, 40]),
                                           names=trees.NAMES + (['style', 'script', 'rt'] if rng.random() < .3 else []))
+            if forced is None and rng.random() < .15:
+                # attribute keys with upper-case letters: html5lib re-cases SVG attributes (viewBox), the bs4 API stores any key
+                camel = E('svg', {'viewBox': rng.choice(['0 0 1 1', 'x', 'x y']), 'preserveAspectRatio': rng.choice(['x', 'X'])},
+                          [T('text', 'x')] if rng.random() < .5 else [])
+                host = [root] + [k for k in root.kids if isinstance(k, E) and k.name not in ('style', 'script', 'rt')]
+                h = rng.choice(host)
+                h.kids.insert(rng.randrange(len(h.kids) + 1), camel)
+                if rng.random() < .5:
+                    h.attrs['data-Key'] = rng.choice(['x', 'X y'])
+                bump('mixed_case_attribute_keys')
             tops, mode = trees.wrap(rng, root)
             how = rng.choice(HOWS)
             for j in range(4):
